@@ -368,3 +368,67 @@ impl Property for C18 {
         out
     }
 }
+
+/// Raw entry point for the byte-level fuzz target: byte 0 = endpoint, byte 1 = status selector,
+/// the rest is the body.
+pub fn fuzz_transform(data: &[u8]) -> Outcome {
+    let mut out = Outcome::default();
+    if data.len() < 2 {
+        return out;
+    }
+    let names = wd::endpoint_names();
+    let name = names[data[0] as usize % names.len()];
+    let kind = kind_of(name);
+    let status: u32 = match data[1] % 8 {
+        0..=4 => 200,
+        5 => 404,
+        6 => 500,
+        _ => data[1] as u32 * 7,
+    };
+    let body = &data[2..];
+    out.checks += 1;
+    let hdrs = vec![("X".to_string(), format!("{}", data[1]))];
+    let res = match call(name, status, &hdrs, body) {
+        Ok(r) => r,
+        Err(p) => {
+            out.fail(format!("{name}: transform trapped on status {status} body {}: {p}", hex::encode(body)));
+            return out;
+        }
+    };
+    let desc = format!("{name} status {status} body {}", hex::encode(&body[..body.len().min(200)]));
+    if !res.headers.is_empty() || res.status != candid::Nat::from(status) {
+        out.fail(format!("{desc}: headers not stripped or status changed"));
+    }
+    let found = lookup(kind, body);
+    let canon = |n: Option<u64>| match n {
+        Some(n) => format!("{{\"height\":{}}}", n).into_bytes(),
+        None => b"{\"height\":null}".to_vec(),
+    };
+    let allowed: Vec<Vec<u8>> = if status != 200 {
+        vec![vec![], canon(found.flatten())]
+    } else {
+        match found {
+            Some(Some(n)) => vec![canon(Some(n))],
+            Some(None) => vec![vec![], canon(None)],
+            None => {
+                if kind == Kind::Plain {
+                    // text that is not all digits: empty, or a canonical object (e.g. "+12")
+                    let mut v = vec![vec![]];
+                    if res.body.starts_with(b"{\"height\":") && res.body.ends_with(b"}") {
+                        let mid = &res.body[10..res.body.len() - 1];
+                        if !mid.is_empty() && mid.iter().all(|b| b.is_ascii_digit()) && (mid.len() == 1 || mid[0] != b'0') {
+                            v.push(res.body.clone());
+                        }
+                    }
+                    v
+                } else {
+                    vec![vec![]]
+                }
+            }
+        }
+    };
+    if !allowed.contains(&res.body) {
+        out.fail(format!("{desc}: result body {:?} is not among the allowed results", String::from_utf8_lossy(&res.body)));
+    }
+    out
+}
